@@ -176,8 +176,40 @@ pub fn profile(tier: Tier) -> Profile {
     p.w_reopen = 1;
     p.w_read = 0;
     p.huge_payload = tier == Tier::Thorough;
-    p.faults = crate::ops::FaultGen::SyncOnly;
+    p.faults = crate::ops::FaultGen::SyncAndCreate;
     p
+}
+
+/// Layout-independent journal invariants (used once the expected layout is unknown): the chunk
+/// files present, in name order, abut exactly, every one decodes completely with the reference
+/// decoder and starts with a State record, and the last one ends at the journal end the store
+/// reports.
+pub fn check_dir_selfconsistent(run: &Run) -> Result<(), Fail> {
+    let img = shadowfs::read_image(&run.dir).map_err(|e| Fail::new("dir-read", e.to_string()))?;
+    let files = shadowfs::ordered(&img);
+    let mut prev_end: Option<u64> = None;
+    for (start, name, data) in &files {
+        if let Some(pe) = prev_end {
+            if pe != *start {
+                return Err(Fail::new("files-do-not-abut", format!("after a rotation whose chunk-file creation failed once: the file before {name} ends at {pe}, {name} starts at {start}; files: {}", crate::crash::describe_image(&img))));
+            }
+        }
+        let p = refcodec::parse_chunk(data);
+        if p.valid_len() != data.len() {
+            return Err(Fail::new("file-not-decodable", format!("{name} holds {} bytes but only {} decode as records ({:?}); files: {}", data.len(), p.valid_len(), p.stop, crate::crash::describe_image(&img))));
+        }
+        if !matches!(p.recs.first(), Some(crate::model::Rec::State(_))) {
+            return Err(Fail::new("file-head-not-state", format!("{name} does not start with a State record")));
+        }
+        prev_end = Some(start + data.len() as u64);
+    }
+    let end = run.rl().stat().open_chunk.global_end;
+    if let Some(pe) = prev_end {
+        if pe != end {
+            return Err(Fail::new("journal-end-differs", format!("the chunk files end at {pe} but the store reports the journal end {end} after a settled flush; files: {}", crate::crash::describe_image(&img))));
+        }
+    }
+    Ok(())
 }
 
 impl Prop for C11 {
@@ -256,6 +288,14 @@ impl Prop for C11 {
                         };
                         if settled {
                             run.wait_stable();
+                            if run.layout.is_none() {
+                                // after an injected chunk-creation failure the expected layout is
+                                // unknown; what every journal must satisfy still is: files abut,
+                                // each decodes completely and starts with a State record
+                                check_dir_selfconsistent(run)?;
+                                compared += 1;
+                                continue;
+                            }
                             check_dir_layout(run)?;
                             check_stat_layout(run)?;
                             check_dump(run)?;
@@ -286,6 +326,10 @@ impl Prop for C11 {
                 run.wait_ack(id)?;
                 run.wait_stable();
                 run.classes.hit("sync_faults_case");
+                if run.layout.is_none() {
+                    check_dir_selfconsistent(run)?;
+                    return Ok((run.classes.clone(), compared + 1));
+                }
             } else {
                 run.flush_and_settle()?;
             }
